@@ -1,4 +1,208 @@
-(* placeholder while the proofs are being written *)
-From BV Require Import Common.Base.
-Theorem C08_placeholder : True. Proof. exact I. Qed.
-Print Assumptions C08_placeholder.
+(* Props/C08.v – Script building, tokenising, number codec, classification predicates and
+   signature-operation counts.  Statements only; every proof is [exact <lemma>].
+   MODEL = Model/Script.v (code style, the tree after the fix of F1), SPEC = Spec/Script.v
+   (Bitcoin Core GetOp / CScriptNum / IsPushOnly / HasCanonicalPushes / IsPayToScriptHash /
+   IsWitnessProgram / GetSigOpCount, protocol opcode numbers as literals).  The opcode
+   numbers and function-local literals the MODEL uses are regenerated from /repo into
+   Gen/ScriptConsts.v on every run, so these theorems are re-checked against them. *)
+From BV Require Import Common.Base Model.Script Spec.Script.
+From BV Require Import Proofs.ScriptNum Proofs.ScriptIter Proofs.ScriptBuild Proofs.ScriptPred.
+
+(* ===== 1. building, iterating, rebuilding ======================================== *)
+(* tok_ok: CScriptOp values 0x4f..0xff, any integer (whose minimal encoding is shorter than
+   2^32 bytes), any byte string shorter than 2^32 bytes *)
+
+(* building emits integers as OP_0..OP_16 / OP_1NEGATE or minimal script-number pushes and
+   byte strings under the shortest push opcode for their length *)
+Theorem C08_build : forall toks, Forall tok_ok toks -> build toks = Ok (toks_enc toks).
+Proof. exact build_spec. Qed.
+(* iterating over the built script returns the corresponding sequence: opcodes, 0..16 as
+   integers, the empty string as 0, every other push as its bytes *)
+Theorem C08_iter_of_build : forall toks, Forall tok_ok toks ->
+  exists s, build toks = Ok s /\ s = toks_enc toks /\ script_iter s = (canon toks, None).
+Proof. exact iter_of_build. Qed.
+(* rebuilding from that sequence reproduces the same bytes *)
+Theorem C08_rebuild : forall toks, Forall tok_ok toks -> build (canon toks) = build toks.
+Proof. exact rebuild_same. Qed.
+(* ... and iterating again returns the same sequence (canon is a normal form) *)
+Theorem C08_iter_rebuild : forall toks, Forall tok_ok toks ->
+  forall s, build (canon toks) = Ok s -> script_iter s = (canon toks, None).
+Proof. exact iter_rebuild. Qed.
+(* script + token = building the longer list *)
+Theorem C08_add : forall toks t, Forall tok_ok toks -> tok_ok t ->
+  build (toks ++ [t]) = (do s <- build toks; script_add s t).
+Proof. exact build_add. Qed.
+(* the only way encode_op_pushdata fails is a string of 2^32 bytes or more *)
+Theorem C08_pushdata : forall d,
+  encode_op_pushdata d = if lenZ d <? 2^32 then Ok (push_enc d) else Err ValueError.
+Proof. exact encode_op_pushdata_spec. Qed.
+(* cooked iteration of EVERY byte string = the reference walk (tokens yielded, then the
+   exception, if any) *)
+Theorem C08_iter_ref : forall s, script_iter s = ref_iter s.
+Proof. exact script_iter_ref. Qed.
+
+(* ===== 2. raw iteration ============================================================ *)
+(* raw_iter = walking the script with Bitcoin Core's GetOp, on every byte string: the same
+   operations with the same offsets, and the same point of failure *)
+Theorem C08_raw_iter_ref : forall s, raw_iter s = ref_parse s.
+Proof. exact raw_iter_ref. Qed.
+(* the operations yielded are well formed, their sop_idx are consecutive offsets, their
+   byte ranges concatenate back to the script (up to `rest`); it ends without exception
+   only at the end of the script, and an exception is a CScriptInvalidError raised exactly
+   where a push overruns the script *)
+Theorem C08_raw_iter_partition : forall s ops e, raw_iter s = (ops, e) ->
+  Forall sop_wf ops /\ consecutive 0 ops /\
+  exists rest, s = ops_bytes ops ++ rest /\
+    (e = None -> rest = []) /\
+    (forall x, e = Some x -> is_script_err x = true /\ overrun rest).
+Proof. exact raw_iter_sound. Qed.
+(* never mis-parses: any sequence of well-formed operations, optionally followed by an
+   overrunning push, is recovered exactly *)
+Theorem C08_raw_iter_exact : forall ops rest,
+  Forall sop_wf ops -> consecutive 0 ops -> (rest = [] \/ overrun rest) ->
+  exists e, raw_iter (ops_bytes ops ++ rest) = (ops, e) /\
+            (rest = [] -> e = None) /\
+            (overrun rest -> exists x, e = Some x /\ is_script_err x = true).
+Proof. exact raw_iter_complete. Qed.
+Theorem C08_raw_iter_ok_iff : forall s, snd (raw_iter s) = None <->
+  exists ops, Forall sop_wf ops /\ consecutive 0 ops /\ s = ops_bytes ops.
+Proof. exact raw_iter_ok_iff. Qed.
+Theorem C08_raw_iter_fail_iff : forall s, (exists x, snd (raw_iter s) = Some x) <->
+  exists ops rest, Forall sop_wf ops /\ consecutive 0 ops /\ s = ops_bytes ops ++ rest /\ overrun rest.
+Proof. exact raw_iter_fail_iff. Qed.
+
+(* ===== 3. script-number codec ====================================================== *)
+(* MODEL (through the MPI detour) = CScriptNum serialize / set_vch, for every integer and
+   every byte string; struct.pack(">I", n) with n >= 2^32 is the only failure *)
+Theorem C08_bn2vch : forall v,
+  bn2vch v = if lenZ (num_enc v) <? 2^32 then Ok (num_enc v) else Err StructError.
+Proof. exact bn2vch_spec. Qed.
+Theorem C08_vch2bn : forall b,
+  vch2bn b = if lenZ b <? 2^32 then Ok (num_dec b) else Err StructError.
+Proof. exact vch2bn_spec. Qed.
+(* bijection between integers and minimal little-endian sign-magnitude strings *)
+Theorem C08_num_dec_enc : forall v, num_dec (num_enc v) = v.
+Proof. exact num_dec_enc. Qed.
+Theorem C08_num_enc_minimal : forall v, num_minimal (num_enc v) = true.
+Proof. exact num_enc_minimal. Qed.
+Theorem C08_num_enc_dec_iff : forall b, num_enc (num_dec b) = b <-> num_minimal b = true.
+Proof. exact num_enc_dec_iff. Qed.
+(* the same on the MODEL *)
+Theorem C08_vch2bn_bn2vch : forall v b, bn2vch v = Ok b -> vch2bn b = Ok v.
+Proof. exact vch2bn_bn2vch. Qed.
+Theorem C08_bn2vch_vch2bn : forall b v, vch2bn b = Ok v -> (bn2vch v = Ok b <-> num_minimal b = true).
+Proof. exact bn2vch_vch2bn. Qed.
+
+(* ===== 4. classification predicates, on EVERY byte string ========================== *)
+Theorem C08_is_push_only : forall s, is_push_only s = Ok (ref_push_only s).
+Proof. exact is_push_only_spec. Qed.
+Theorem C08_has_canonical_pushes : forall s, has_canonical_pushes s = Ok (ref_canonical_pushes s).
+Proof. exact has_canonical_pushes_spec. Qed.
+Theorem C08_is_p2sh : forall s, is_p2sh s = Ok (ref_p2sh s).
+Proof. exact is_p2sh_spec. Qed.
+Theorem C08_p2sh_form : forall s, ref_p2sh s = true <->
+  exists h, length h = 20%nat /\ s = xa9 :: x14 :: h ++ [x87].
+Proof. exact ref_p2sh_iff. Qed.
+(* the signed '<bb' unpack and the negative table index do not change the answer *)
+Theorem C08_is_witness_scriptpubkey : forall s, is_witness_scriptpubkey s = Ok (ref_is_witness s).
+Proof. exact is_witness_scriptpubkey_spec. Qed.
+Theorem C08_witness_program_form : forall s v prog, ref_witness_program s = Some (v, prog) <->
+  exists vb, s = vb :: z2b (lenZ prog) :: prog /\ 2 <= lenZ prog <= 40 /\
+             ((b2z vb = 0 /\ v = 0) \/ (0x51 <= b2z vb <= 0x60 /\ v = b2z vb - 0x50)).
+Proof. exact ref_witness_program_iff. Qed.
+Theorem C08_witness_version : forall s v prog, ref_witness_program s = Some (v, prog) ->
+  witness_version s = Ok (TInt v).
+Proof. exact witness_version_spec. Qed.
+Theorem C08_is_witness_v0_keyhash : forall s, is_witness_v0_keyhash s = ref_v0_keyhash s.
+Proof. exact is_witness_v0_keyhash_spec. Qed.
+Theorem C08_is_witness_v0_scripthash : forall s, is_witness_v0_scripthash s = ref_v0_scripthash s.
+Proof. exact is_witness_v0_scripthash_spec. Qed.
+Theorem C08_is_witness_v0_nested_keyhash : forall s, is_witness_v0_nested_keyhash s = ref_v0_nested_keyhash s.
+Proof. exact is_witness_v0_nested_keyhash_spec. Qed.
+Theorem C08_is_witness_v0_nested_scripthash : forall s, is_witness_v0_nested_scripthash s = ref_v0_nested_scripthash s.
+Proof. exact is_witness_v0_nested_scripthash_spec. Qed.
+Theorem C08_v0_keyhash_form : forall s, ref_v0_keyhash s = true <->
+  exists h, length h = 20%nat /\ s = x00 :: x14 :: h.
+Proof. exact ref_v0_keyhash_iff. Qed.
+Theorem C08_v0_scripthash_form : forall s, ref_v0_scripthash s = true <->
+  exists h, length h = 32%nat /\ s = x00 :: x20 :: h.
+Proof. exact ref_v0_scripthash_iff. Qed.
+Theorem C08_v0_forms_are_programs : forall s, ref_v0_keyhash s = true \/ ref_v0_scripthash s = true ->
+  exists prog, ref_witness_program s = Some (0, prog).
+Proof. exact v0_forms_are_programs. Qed.
+Theorem C08_is_valid : forall s, is_valid s = Ok (parses s).
+Proof. exact is_valid_spec. Qed.
+Theorem C08_is_unspendable : forall s, is_unspendable s = Ok (ref_unspendable s).
+Proof. exact is_unspendable_spec. Qed.
+
+(* ===== 5. signature-operation counts (after the fix of F1) ========================== *)
+Theorem C08_sigops : forall accurate s, get_sigop_count accurate s = Ok (ref_sigops accurate s).
+Proof. exact get_sigop_count_spec. Qed.
+(* counting stops at the first malformed push and keeps what was counted before it *)
+Theorem C08_sigops_prefix : forall accurate ops rest,
+  Forall sop_wf ops -> consecutive 0 ops -> overrun rest ->
+  ref_sigops accurate (ops_bytes ops ++ rest) = ref_sigops accurate (ops_bytes ops).
+Proof. exact ref_sigops_prefix. Qed.
+
+(* non-vacuity: the hypotheses are met by concrete values and both outcomes occur; the two
+   F1 inputs now give Core's answers *)
+Example C08_nonvacuous :
+  let pk := repeat x02 33 in
+  let multisig := [x52; x21] ++ pk ++ [x21] ++ pk ++ [x52; xae] in
+  build [TInt 2; TBytes pk; TBytes pk; TInt 2; TOp 0xae] = Ok multisig /\
+  get_sigop_count true multisig = Ok 2 /\ get_sigop_count false multisig = Ok 20 /\
+  get_sigop_count false [xac; x4c] = Ok 1 /\
+  raw_iter [xac; x4c] = ([mk_sop 0xac None 0], Some InvalidScript) /\
+  raw_iter [xac; x02; x01] = ([mk_sop 0xac None 0], Some TruncatedPush) /\ overrun [x02; x01] /\
+  script_iter (toks_enc [TInt 1000; TBytes []; TInt (-1); TOp 0x51])
+    = ([TBytes [xe8; x03]; TInt 0; TOp 0x4f; TInt 1], None) /\
+  bn2vch (-255) = Ok [xff; x80] /\ vch2bn [xff; x80] = Ok (-255) /\
+  num_minimal [xff; x00] = true /\ num_minimal [x7f; x00] = false /\ vch2bn [x7f; x00] = Ok 127 /\
+  is_p2sh ([xa9; x14] ++ repeat x00 20 ++ [x87]) = Ok true /\
+  is_witness_scriptpubkey ([x51; x02; x00; x00]) = Ok true /\
+  is_witness_scriptpubkey ([xd1; x02; x00; x00]) = Ok false /\
+  has_canonical_pushes [x01; x05] = Ok false /\ is_push_only [x01; x05; x60] = Ok true /\
+  tok_ok (TInt (2^70)) /\ tok_ok (TOp 0xff) /\ tok_ok (TBytes (repeat x00 76)).
+Proof.
+  cbv zeta. repeat match goal with |- _ /\ _ => split end;
+    try (vm_compute; reflexivity); try (vm_compute; intuition congruence).
+  apply ov_direct; vm_compute; reflexivity.
+Qed.
+
+Print Assumptions C08_build.
+Print Assumptions C08_iter_of_build.
+Print Assumptions C08_rebuild.
+Print Assumptions C08_iter_rebuild.
+Print Assumptions C08_add.
+Print Assumptions C08_pushdata.
+Print Assumptions C08_iter_ref.
+Print Assumptions C08_raw_iter_ref.
+Print Assumptions C08_raw_iter_partition.
+Print Assumptions C08_raw_iter_exact.
+Print Assumptions C08_raw_iter_ok_iff.
+Print Assumptions C08_raw_iter_fail_iff.
+Print Assumptions C08_bn2vch.
+Print Assumptions C08_vch2bn.
+Print Assumptions C08_num_dec_enc.
+Print Assumptions C08_num_enc_minimal.
+Print Assumptions C08_num_enc_dec_iff.
+Print Assumptions C08_vch2bn_bn2vch.
+Print Assumptions C08_bn2vch_vch2bn.
+Print Assumptions C08_is_push_only.
+Print Assumptions C08_has_canonical_pushes.
+Print Assumptions C08_is_p2sh.
+Print Assumptions C08_p2sh_form.
+Print Assumptions C08_is_witness_scriptpubkey.
+Print Assumptions C08_witness_program_form.
+Print Assumptions C08_witness_version.
+Print Assumptions C08_is_witness_v0_keyhash.
+Print Assumptions C08_is_witness_v0_scripthash.
+Print Assumptions C08_is_witness_v0_nested_keyhash.
+Print Assumptions C08_is_witness_v0_nested_scripthash.
+Print Assumptions C08_v0_keyhash_form.
+Print Assumptions C08_v0_scripthash_form.
+Print Assumptions C08_v0_forms_are_programs.
+Print Assumptions C08_is_valid.
+Print Assumptions C08_is_unspendable.
+Print Assumptions C08_sigops.
+Print Assumptions C08_sigops_prefix.
